@@ -58,6 +58,21 @@ def _strategy():
                     if m["t"] == b:
                         m["dt_ms"] = 0
                         m["ctx"] = "app"
+        # structured shape (one case in five): two broadcasts of one stack handed over from different contexts a fraction of a
+        # millisecond apart while frame writes take 2 ms - the second call arrives while the first announcement is being written
+        if len(msgs) >= 2 and draw(st.sampled_from([False, False, False, False, True])):
+            b0 = msgs[0]["t"]
+            same = [m for m in msgs if m["t"] == b0]
+            cnt_b = sum(1 for m in same if m["kind"] in ("bc1", "bc2"))
+            if len(same) >= 2 and cnt_b <= 2:
+                a, b = same[0], same[1]
+                b["src"] = list(a["src"])
+                for m, kind, ctx, dt in ((a, "bc2", "timer", 0), (b, "bc2", "app", draw(st.sampled_from([0.3, 1])))):
+                    m["kind"], m["ctx"], m["dt_ms"] = kind, ctx, dt
+                    m["pf"], m["ps"] = draw(st.integers(240, 255)), draw(st.integers(0, 255))
+                    m.pop("dst", None)
+                    m.pop("dst_addr", None)
+                base["stacks"][a["src"][0]]["tx_time"] = 0.002
         base["msgs"] = msgs
         return N.limit_tx_time(base)
     return build()
@@ -74,7 +89,8 @@ class C02:
             "PDU1->255, PDU2, unowned destination) submitted in the same instant from one, two or all stacks (bursts that cannot "
             "exceed a capacity are also staggered by 2..80 ms "
             "and submitted from the application context, from a timer callback of the stack or from inside a receive callback; "
-            "send calls take 0..0.5 ms, receive callbacks 0..20 ms); per stack the "
+            "send calls take 0..2 ms, receive callbacks 0..20 ms; one case in five hands two broadcasts of one stack over from a "
+            "timer callback and from the application 0.3-1 ms apart while frame writes take 2 ms); per stack the "
             "first 8 destination-specific and first 4 broadcast calls of a burst must return True and be delivered per the "
             "reference delivery model, every further one must return False without emitting a frame; non-trivial = >= 2 "
             "concurrent sessions of one stack or traffic in both directions; distinct = distinct parameter sets")
